@@ -1,4 +1,6 @@
 import MlModel.Lemmas.RemoteBasic
+import MlModel.Lemmas.RemoteChain
+import MlModel.Lemmas.RemoteIter
 import MlModel.Properties.C17
 /-!
 # C14 — remote evaluation is observationally the same as local evaluation
@@ -145,6 +147,273 @@ theorem C14_never_wrong_value (p : Prog) (env : Env) (srv : Srv) (c : CRes)
     | exc x => simp at h
     | plain v => simp only [Except.ok.injEq] at h; exact ⟨_, rfl, rfl, h.symm, trivial⟩
     | list xs => simp only [Except.ok.injEq] at h; exact ⟨_, rfl, rfl, h.symm, trivial⟩
+
+/-! ## C14_handle — a lazy result stays on the server; the client works through a handle -/
+
+/-- Whenever local evaluation yields a `LazyObject` handle (a `lazy_result_` program), the pickled reply
+is `href id` — a form that has an id and **no value field** — and the client holds `RemoteObject id`.
+Holds whatever the shutdown flag and the aliveness reading. -/
+theorem C14_handle_only_id (p : Prog) (env : Env) (srv : Srv) (id : Nat) (ht : p.traceError = none)
+    (ha : env.alive0 = true) (hf : env.fate = .ok) (h : (run p srv).1 = .ok (.plain (.handle id))) :
+    (handle (getRequest p) srv).1 = .payload (.plain (.href id)) true ∧
+    (getResult p env srv).1 = .ok (.remote id) := by
+  refine ⟨?_, ?_⟩
+  · simp only [handle_getRequest, h, PVal.dumps, Val.dumps]
+  · have h2 := decode_payload env (.plain (.handle id))
+    simp only [getResult_traced ht, ha, hf, handle_getRequest, h, Bool.not_true, Bool.false_eq_true, if_false]
+    simpa [wrap] using h2
+
+/-- The value never crosses: the bytes sent back for `trace(v, lazy_result=True)` are the same for any
+two values — the reply is a function of the server's id counter only. -/
+theorem C14_handle_value_stays (v v' : Val) (srv : Srv) :
+    (handle (getRequest (.expr (.traced v true))) srv).1 =
+      (handle (getRequest (.expr (.traced v' true))) srv).1 ∧
+    (handle (getRequest (.expr (.traced v true))) srv).1 = .payload (.plain (.href srv.lz.nextId)) true := by
+  simp [handle_getRequest, run, runExpr, maybeMake, Expr.badFlags, eval, newHandle, liftLazy, PVal.dumps,
+    Val.dumps]
+
+/-- …while the object itself is on the server, under that id (object capacity ≥ 1): dereferencing the
+handle there yields exactly the value the program evaluated to. -/
+theorem C14_handle_object_on_server (v : Val) (srv : Srv) (hg : Good srv.lz) (hm : 1 ≤ srv.lz.obj.maxsize) :
+    (run (.expr (.traced v true)) srv).1 = .ok (.plain (.handle srv.lz.nextId)) ∧
+    (run (.expr (.const (.handle srv.lz.nextId))) (run (.expr (.traced v true)) srv).2).1 = .ok (.plain v) := by
+  have h := C17.C17_lazy_root (v, 0) srv.lz hg hm
+  refine ⟨?_, ?_⟩
+  · simp [run, runExpr, maybeMake, Expr.badFlags, eval, newHandle, liftLazy]
+  · have h2 := h.2
+    have hst : (maybeMake (.traced v true) srv.lz).2 = (newHandle (v, 0) srv.lz).2 := by
+      simp [maybeMake, Expr.badFlags, eval]
+    simp only [run, runExpr, hst, h2, liftLazy]
+
+/-- **Chains.**  Any chain of attribute accesses, item accesses and calls built on a remote handle and
+finished by `result_()` gives what the same chain gives on the local object by ordinary Python
+evaluation (`getattr(v, n)`, `v[k]`, `v(*args, **kw)`): same value, or the same error at the same link,
+and the same effects on the world (call log, stateful counter).  `v` is the object the server holds
+under the handle's id.  WF: no `LazyObject` handle inside the object or among the arguments (the server
+would dereference it, plain Python would not). -/
+theorem C14_handle_chain (id : Nat) (ls : List Link) (env : Env) (srv : Srv) (v : Val) (r : Nat)
+    (ha : env.alive0 = true) (hf : env.fate = .ok) (hs : srv.shutdown = false)
+    (hobj : Lru.find? srv.lz.obj.data id = some (v, r))
+    (hv : v.leafAll noHandleP = true) (hls : ∀ l ∈ ls, l.noHandle = true) :
+    (handleResult id ls env srv).1 =
+      (match (localChain v ls srv.lz.w).1 with
+       | .ok v' => .ok (.val (.plain v'))
+       | .error e => .error (Exc.ofErr e)) ∧
+    (handleResult id ls env srv).2.lz.w = (localChain v ls srv.lz.w).2 := by
+  have hroot : eval (.const (.handle id)) srv.lz = (.ok (v, r), { srv.lz with obj := (srv.lz.obj.getitem id).2 }) := by
+    rw [eval_handle]; exact objGet_found hobj
+  obtain ⟨h1, h2⟩ := eval_chain ls (.const (.handle id)) srv.lz _ v r (by simp) hv hls hroot
+  simp only at h1 h2
+  have hmm : maybeMake (chain (.const (.handle id)) ls) srv.lz = eval (chain (.const (.handle id)) ls) srv.lz := by
+    simp [maybeMake, badFlags_chain, Expr.badFlags]
+  unfold handleResult
+  rw [C14_eval_expr _ env srv ha hf hs, hmm]
+  refine ⟨?_, ?_⟩
+  · cases hl : localChain v ls srv.lz.w with
+    | mk res w' =>
+      rw [hl] at h1
+      simp only at h1 ⊢
+      cases hev : (eval (chain (.const (.handle id)) ls) srv.lz).1 with
+      | error e =>
+        rw [hev] at h1
+        cases res with
+        | error e' => simp only [Except.map, Except.error.injEq] at h1; subst h1; rfl
+        | ok v' => simp [Except.map] at h1
+      | ok rv =>
+        rw [hev] at h1
+        cases res with
+        | error e' => simp [Except.map] at h1
+        | ok v' =>
+          simp only [Except.map, Except.ok.injEq] at h1
+          have hne := leafAll_noHandle_ne (localChain_leafAll ls v v' _ _ hv hls hl)
+          simp only [liftLazy, Except.map, h1]
+          cases hv' : v' <;> first | rfl | exact absurd hv' (hne _)
+  · simp only [h2, St.withW_w]
+
+/-! ## C14_iter — remote iterators and remote queues -/
+
+/-- what the caller of `next(remote_iterator)` / `remote_queue.get()` sees for a local outcome -/
+def seen (r : Except Exc Val) : Except Exc CRes := r.map (fun a => wrap (.plain a))
+
+/-- One `next` on a remote iterator is `next` on the underlying iterator: same element or same
+exception, and the server-side iterator advances exactly as the local one. -/
+theorem C14_iter_next (id : Nat) (srv : Srv) (g : Gen) (hs : srv.shutdown = false)
+    (hg : sGet srv.objs (resolve srv.objs id) = some (.iter g)) (hc : g.fin.exc.code ≠ 4) :
+    getResult (.next id) {} srv =
+      (seen (genNext g).1,
+       { srv with objs := sSet srv.objs (resolve srv.objs id) (.iter (genNext g).2) }) := by
+  have hrun : run (.next id) srv = ((genNext g).1.map .plain,
+      { srv with objs := sSet srv.objs (resolve srv.objs id) (.iter (genNext g).2) }) := by
+    simp only [run, runNext, hg]
+  rw [C14_eval (.next id) {} srv rfl rfl hs, hrun]
+  · cases (genNext g).1 <;> rfl
+  · intro x; rw [hrun]; cases (genNext g).1 <;> simp [Except.map]
+  · intro x; rw [hrun]
+    unfold genNext
+    cases g.items with
+    | nil => simp only [Except.map, Except.error.injEq]; intro h; rw [← h]; exact hc
+    | cons a rest => simp [Except.map]
+
+/-- `k` successive `next` calls through the client are `k` successive `next` calls on the iterator. -/
+theorem C14_iter_run (id : Nat) (k : Nat) : ∀ (srv : Srv) (g : Gen), srv.shutdown = false →
+    sGet srv.objs (resolve srv.objs id) = some (.iter g) → g.fin.exc.code ≠ 4 →
+    (remoteNexts id k srv).1 = (genRun k g).1.map seen ∧
+    sGet (remoteNexts id k srv).2.objs (resolve (remoteNexts id k srv).2.objs id) = some (.iter (genRun k g).2) := by
+  induction k with
+  | zero => intro srv g _ hg _; exact ⟨rfl, hg⟩
+  | succ k ih =>
+    intro srv g hs hg hc
+    simp only [remoteNexts, genRun, List.map_cons]
+    rw [C14_iter_next id srv g hs hg hc]
+    have hc' : (genNext g).2.fin.exc.code ≠ 4 := by
+      unfold genNext
+      cases g.items with
+      | nil => simp [Fin.exc, stopExc]
+      | cons a rest => exact hc
+    have hres : resolve (sSet srv.objs (resolve srv.objs id) (.iter (genNext g).2)) id = resolve srv.objs id :=
+      resolve_sSet_iter _ _ _ _ _ hg
+    have hg' : sGet (sSet srv.objs (resolve srv.objs id) (.iter (genNext g).2))
+        (resolve (sSet srv.objs (resolve srv.objs id) (.iter (genNext g).2)) id) = some (.iter (genNext g).2) := by
+      rw [hres]; exact sGet_sSet_same _ _ _ _ hg
+    obtain ⟨h1, h2⟩ := ih { srv with objs := sSet srv.objs (resolve srv.objs id) (.iter (genNext g).2) }
+      (genNext g).2 hs hg' hc'
+    exact ⟨by rw [h1], h2⟩
+
+/-- **Remote iterator.**  Iterating a remote iterator over elements `xs` that ends with `fin`
+(`StopIteration`, possibly with a return value, or a failure) yields, for every number `m` of further
+calls: exactly `xs` in order, then the end signal **once**, then a bare `StopIteration` on each of the
+`m` later calls — never a value after exhaustion. -/
+theorem C14_iter (id : Nat) (m : Nat) (srv : Srv) (g : Gen) (hs : srv.shutdown = false)
+    (hg : sGet srv.objs (resolve srv.objs id) = some (.iter g)) (hc : g.fin.exc.code ≠ 4) :
+    (remoteNexts id (g.items.length + 1 + m) srv).1 =
+      g.items.map (fun a => .ok (wrap (.plain a))) ++ [.error g.fin.exc] ++
+        List.replicate m (.error (stopExc [])) := by
+  rw [(C14_iter_run id _ srv g hs hg hc).1, genRun_trace, genTrace_full]
+  simp [seen, Except.map, List.map_replicate]
+
+/-- One `get` on a remote queue is `get` on the queue. -/
+theorem C14_iter_queue_get (id : Nat) (srv : Srv) (q : QObj) (hs : srv.shutdown = false)
+    (hq : sGet srv.objs id = some (.queue q)) (hc : q.fin.exc.code ≠ 4) :
+    getResult (.qget id) {} srv =
+      (seen (qGet q).1, { srv with objs := sSet srv.objs id (.queue (qGet q).2) }) := by
+  have hrun : run (.qget id) srv = ((qGet q).1.map .plain,
+      { srv with objs := sSet srv.objs id (.queue (qGet q).2) }) := by
+    simp only [run, runQGet, hq]
+  rw [C14_eval (.qget id) {} srv rfl rfl hs, hrun]
+  · cases (qGet q).1 <;> rfl
+  · intro x; rw [hrun]; cases (qGet q).1 <;> simp [Except.map]
+  · intro x; rw [hrun]
+    unfold qGet
+    cases q.buf with
+    | nil => simp only [Except.map, Except.error.injEq]; intro h; rw [← h]; exact hc
+    | cons a rest => simp [Except.map]
+
+theorem C14_iter_queue_run (id : Nat) (k : Nat) : ∀ (srv : Srv) (q : QObj), srv.shutdown = false →
+    sGet srv.objs id = some (.queue q) → q.fin.exc.code ≠ 4 →
+    (remoteGets id k srv).1 = (qRun k q).1.map seen := by
+  induction k with
+  | zero => intro srv q _ _ _; rfl
+  | succ k ih =>
+    intro srv q hs hq hc
+    simp only [remoteGets, qRun, List.map_cons]
+    rw [C14_iter_queue_get id srv q hs hq hc]
+    have hc' : (qGet q).2.fin.exc.code ≠ 4 := by
+      unfold qGet
+      cases q.buf <;> exact hc
+    rw [ih { srv with objs := sSet srv.objs id (.queue (qGet q).2) } (qGet q).2 hs
+      (sGet_sSet_same _ _ _ _ hq) hc']
+
+/-- **Remote queue.**  `get` on a remote (finished) queue yields exactly the buffered elements in
+order and then the end — `StopIteration(*returned)` or the producer's failure — on every later call. -/
+theorem C14_iter_queue (id : Nat) (m : Nat) (srv : Srv) (q : QObj) (hs : srv.shutdown = false)
+    (hq : sGet srv.objs id = some (.queue q)) (hc : q.fin.exc.code ≠ 4) :
+    (remoteGets id (q.buf.length + m) srv).1 =
+      q.buf.map (fun a => .ok (wrap (.plain a))) ++ List.replicate m (.error q.fin.exc) := by
+  rw [C14_iter_queue_run id _ srv q hs hq hc, qRun_trace, qTrace_full]
+  simp [seen, Except.map, List.map_replicate]
+
+/-- `get_batch` on a remote queue is `get_batch` on the queue: a list of the next buffered elements in
+order; for a queue that ended normally and holds fewer than the batch bound, all of them at once, and
+the end afterwards. -/
+theorem C14_iter_queue_batch (id : Nat) (srv : Srv) (q : QObj) (hs : srv.shutdown = false)
+    (hq : sGet srv.objs id = some (.queue q)) (hc : q.fin.exc.code ≠ 4) :
+    getResult (.qbatch id) {} srv =
+      ((qGetBatch srv.maxBatch q).1.map (fun xs => .val (.list xs)),
+       { srv with objs := sSet srv.objs id (.queue (qGetBatch srv.maxBatch q).2) }) ∧
+    (∀ r a rest, q.fin = .stop r → q.buf = a :: rest → q.buf.length < srv.maxBatch →
+      qGetBatch srv.maxBatch q = (.ok q.buf, { q with buf := [] }) ∧
+      (qGetBatch srv.maxBatch { q with buf := [] }).1 = .error (stopExc r)) := by
+  have hrun : run (.qbatch id) srv = ((qGetBatch srv.maxBatch q).1.map .list,
+      { srv with objs := sSet srv.objs id (.queue (qGetBatch srv.maxBatch q).2) }) := by
+    simp only [run, runQBatch, hq]
+  refine ⟨?_, ?_⟩
+  · rw [C14_eval (.qbatch id) {} srv rfl rfl hs, hrun]
+    · cases (qGetBatch srv.maxBatch q).1 <;> rfl
+    · intro x; rw [hrun]; cases (qGetBatch srv.maxBatch q).1 <;> simp [Except.map]
+    · intro x; rw [hrun]
+      unfold qGetBatch
+      cases hb : q.buf with
+      | nil => simp only [Except.map, Except.error.injEq]; intro h; rw [← h]; exact hc
+      | cons a rest =>
+        simp only
+        split
+        · simp [Except.map]
+        · cases hf : q.fin with
+          | stop r => simp [Except.map]
+          | fail y =>
+            simp only [Except.map, Except.error.injEq]
+            intro h; rw [← h]
+            have := hc; rw [hf] at this; exact this
+  · intro r a rest hf hb hlt
+    refine ⟨?_, ?_⟩
+    · unfold qGetBatch
+      rw [hb] at hlt ⊢
+      simp only [hf, Nat.not_le.mpr hlt, if_false]
+    · simp [qGetBatch, hf, Fin.exc]
+
+/-- Creating the iterator through the public route: `mk_gen` (a `lazy_result_` generator) followed by
+`iter(handle)` gives the client two handles with fresh ids that denote the one server-side generator
+holding exactly the given elements and end; so `C14_iter` applies to it. -/
+theorem C14_iter_init (items : List Val) (fin : Fin) (srv : Srv) (hs : srv.shutdown = false)
+    (hfresh : ∀ p ∈ srv.objs, p.1 < srv.lz.nextId) :
+    let r1 := getResult (.mkGen items fin) {} srv
+    let r2 := getResult (.iterOf srv.lz.nextId) {} r1.2
+    r1.1 = .ok (.remote srv.lz.nextId) ∧ r2.1 = .ok (.remote (srv.lz.nextId + 1)) ∧
+    r2.2.shutdown = false ∧
+    sGet r2.2.objs (resolve r2.2.objs (srv.lz.nextId + 1)) = some (.iter ⟨items, fin⟩) := by
+  have hne : ∀ p ∈ srv.objs, p.1 ≠ srv.lz.nextId := fun p hp e => by have := hfresh p hp; omega
+  have e1 : getResult (.mkGen items fin) {} srv = (.ok (.remote srv.lz.nextId), (allocObj (.iter ⟨items, fin⟩) srv).2) := by
+    rw [C14_eval _ {} srv rfl rfl hs] <;> simp [run, allocObj, Except.map, wrap]
+  have hget : sGet (allocObj (.iter ⟨items, fin⟩) srv).2.objs srv.lz.nextId = some (.iter ⟨items, fin⟩) :=
+    sGet_append_new _ _ _ hne
+  have hres : resolve (allocObj (.iter ⟨items, fin⟩) srv).2.objs srv.lz.nextId = srv.lz.nextId := by
+    unfold resolve; rw [hget]
+  have hrun2 : run (.iterOf srv.lz.nextId) (allocObj (.iter ⟨items, fin⟩) srv).2 =
+      allocObj (.alias srv.lz.nextId) (allocObj (.iter ⟨items, fin⟩) srv).2 := by
+    simp only [run, runIterOf, hres, hget]
+  have e2 : getResult (.iterOf srv.lz.nextId) {} (allocObj (.iter ⟨items, fin⟩) srv).2 =
+      (.ok (.remote (srv.lz.nextId + 1)), (allocObj (.alias srv.lz.nextId) (allocObj (.iter ⟨items, fin⟩) srv).2).2) := by
+    rw [C14_eval _ {} _ rfl rfl (by exact hs), hrun2]
+    · rfl
+    · intro x; rw [hrun2]; simp [allocObj]
+    · intro x; rw [hrun2]; simp [allocObj]
+  simp only [e1, e2]
+  refine ⟨trivial, trivial, hs, ?_⟩
+  have hne2 : ∀ p ∈ (allocObj (.iter ⟨items, fin⟩) srv).2.objs, p.1 ≠ srv.lz.nextId + 1 := by
+    intro p hp
+    simp only [allocObj, List.mem_append, List.mem_singleton] at hp
+    rcases hp with hp | rfl
+    · have := hfresh p hp; omega
+    · simp
+  have hal : sGet (allocObj (.alias srv.lz.nextId) (allocObj (.iter ⟨items, fin⟩) srv).2).2.objs (srv.lz.nextId + 1)
+      = some (.alias srv.lz.nextId) := sGet_append_new _ _ _ hne2
+  have hres2 : resolve (allocObj (.alias srv.lz.nextId) (allocObj (.iter ⟨items, fin⟩) srv).2).2.objs (srv.lz.nextId + 1)
+      = srv.lz.nextId := by
+    unfold resolve; rw [hal]
+  rw [hres2]
+  show sGet ((allocObj (.iter ⟨items, fin⟩) srv).2.objs ++ [(srv.lz.nextId + 1, .alias srv.lz.nextId)]) srv.lz.nextId = _
+  rw [sGet_append_old _ _ _ _ (by omega)]
+  exact hget
 
 /-! ## Transport faults: the deadline → `TimeoutError` mapping -/
 
